@@ -293,4 +293,11 @@ class SeqLeg(object):
         return None
 
 
-LEGS = [SeqLeg()]
+def _merge_histories():
+    # all update/delete/reopen sequences over a merge-centred alphabet, against the same MergeModel (shared with C10)
+    from gfv.props import c10
+
+    return c10.ExhaustiveLeg("merge-histories", c10.MERGE_ALPHABET, {"quick": 3, "thorough": 5})
+
+
+LEGS = [SeqLeg(), _merge_histories()]
